@@ -310,8 +310,11 @@ def run_one(src, limit=60, diagnose=False):
   if not tr["ok"]:
     return {"status": "raised", "error": tr["error"]}
   tr["src"] = src
+  # CPU-time watchdog (deterministic under machine load); a wall-clock alarm at 10x is the backstop
+  signal.signal(signal.SIGPROF, _alarm)
   signal.signal(signal.SIGALRM, _alarm)
-  signal.alarm(limit)
+  signal.setitimer(signal.ITIMER_PROF, limit)
+  signal.alarm(limit * 10)
   try:
     res = pt.analyze(src, keep_ctx=diagnose)
   except Timeout:
@@ -319,6 +322,7 @@ def run_one(src, limit=60, diagnose=False):
   except Exception as e:  # pylint: disable=broad-except
     return {"status": "analysis-error", "error": f"{type(e).__name__}: {str(e)[:200]}"}
   finally:
+    signal.setitimer(signal.ITIMER_PROF, 0)
     signal.alarm(0)
   diag = {} if diagnose else None
   items, viol = judge(src, tr, res, diag)
